@@ -13,7 +13,7 @@ cleanup() { git -C /repo worktree remove --force $MX/repo >/dev/null 2>&1; rm -r
 trap cleanup EXIT
 related() { case $1 in
   C01) echo "C01 C07";; C02) echo "C02 C05 C19";; C03) echo "C03 C05";; C04) echo "C04";; C05) echo "C05";;
-  C06) echo "C06 C07 C02";; C07) echo "C07";; C08) echo "C08";; C15) echo "C15";; C16) echo "C16";; C17) echo "C17";;
+  C06) echo "C06 C07 C02";; C07) echo "C07";; C08) echo "C08";; C15) echo "C15";; C16) echo "C16";; C17) echo "C17 C19";;
   C18) echo "C18 C03";; C14) echo "C14 C08";; C11) echo "C11 C12";; C12) echo "C12 C11";; C10) echo "C10";; C13) echo "C13";; C19) echo "C19";; C20) echo "C20";; *) echo "$1";; esac; }
 claimed=$(python3 -c "import json;print(' '.join(c['property_id'] for c in json.load(open('/verif/MANIFEST.json'))['checks']))")
 : > $OUT.tmp
